@@ -1065,7 +1065,7 @@ func main() {
 		r.Write(*out)
 		return
 	}
-	n := 15
+	n := 40
 	if *tier == "thorough" {
 		n = 120
 	}
